@@ -27,6 +27,8 @@ enum Setter {
     None,
     SelfSet,
     Thread,
+    /// like SelfSet, but the embedder keeps no handle on the flag: the run's own Env is its only owner
+    SelfSetSole,
 }
 
 struct Probe {
@@ -69,7 +71,7 @@ impl Probe {
         self.depth.set(self.depth.get() + 1);
         if idx == self.halt_at.get() {
             match self.setter.get() {
-                Setter::SelfSet => c.env.halt.store(true, Ordering::SeqCst),
+                Setter::SelfSet | Setter::SelfSetSole => c.env.halt.store(true, Ordering::SeqCst),
                 Setter::Thread => {
                     // hand control to the second thread: it stores the flag and acknowledges
                     self.to_setter.send(c.env.halt.clone()).expect("setter thread");
@@ -240,7 +242,12 @@ impl Rig {
         ctx.commands = self.commands.clone();
         ctx.variables.insert("i".into(), "0".into());
         let halt = Arc::new(AtomicBool::new(preset));
-        let env = Env::new(Some(Box::new(Buf::default())), Some(Box::new(Buf::default())), Some(halt.clone()));
+        let env = if setter == Setter::SelfSetSole {
+            // the flag is handed over: nobody outside the run holds it
+            Env::new(Some(Box::new(Buf::default())), Some(Box::new(Buf::default())), Some(halt))
+        } else {
+            Env::new(Some(Box::new(Buf::default())), Some(Box::new(Buf::default())), Some(halt.clone()))
+        };
         let r = guarded(|| runner::run_script(text, ctx, Some(env)));
         let mut end_state: Vec<String> = vec![];
         let end = match r {
@@ -317,8 +324,8 @@ fn handwritten() -> Vec<(&'static str, String)> {
 
 pub fn bounds(tier: Tier) -> Value {
     match tier {
-        Tier::Quick => json!({"handwritten_programs": 32, "generated_block_programs": "1-2 blocks, 3 answer tapes", "horizon_command_entries": 20, "setters": ["command itself", "second thread"]}),
-        Tier::Thorough => json!({"handwritten_programs": 32, "generated_block_programs": "1-3 blocks (all forests), 4 answer tapes", "horizon_command_entries": 60, "setters": ["command itself", "second thread"]}),
+        Tier::Quick => json!({"handwritten_programs": 32, "generated_block_programs": "1-2 blocks, 3 answer tapes", "horizon_command_entries": 20, "setters": ["command itself", "second thread", "command itself on a flag nobody else holds"]}),
+        Tier::Thorough => json!({"handwritten_programs": 32, "generated_block_programs": "1-3 blocks (all forests), 4 answer tapes", "horizon_command_entries": 60, "setters": ["command itself", "second thread", "command itself on a flag nobody else holds"]}),
     }
 }
 
@@ -347,8 +354,8 @@ fn check_program_at(w: &mut Worker, rig: &Rig, name: &str, text: &str, tape: &[(
     let kmax = n.min(horizon);
     let ks: Vec<usize> = if only.is_empty() { (0..=kmax).collect() } else { only.iter().cloned().filter(|k| *k <= kmax).collect() };
     'outer: for k in ks {
-        for setter in [Setter::SelfSet, Setter::Thread] {
-            if k == 0 && setter == Setter::Thread {
+        for setter in [Setter::SelfSet, Setter::Thread, Setter::SelfSetSole] {
+            if k == 0 && setter != Setter::SelfSet {
                 continue;
             }
             let obs = if k == 0 {
@@ -526,7 +533,13 @@ pub fn replay(case: &Value) -> Result<String, String> {
         .map(|a| a.iter().map(|e| ((e[0].as_u64().unwrap_or(0) as u32, e[1].as_u64().unwrap_or(0) as u32), e[2].as_u64().unwrap_or(0) as u16)).collect())
         .unwrap_or_default();
     let k = case["halt_at"].as_u64().unwrap_or(0) as usize;
-    let setter = if case["setter"] == "Thread" { Setter::Thread } else { Setter::SelfSet };
+    let setter = if case["setter"] == "Thread" {
+        Setter::Thread
+    } else if case["setter"] == "SelfSetSole" {
+        Setter::SelfSetSole
+    } else {
+        Setter::SelfSet
+    };
     let rig = Rig::new();
     let base = rig.run(text, &tape, 0, Setter::None, 200, false);
     let obs = if k == 0 { rig.run(text, &tape, 0, Setter::None, 0, true) } else { rig.run(text, &tape, k, setter, 0, false) };
